@@ -289,6 +289,8 @@ def _real_case(col, seed, c):
                     col.count('ill_conditioned_not_compared', int(ill.sum()))
                     for kk in ('defined_bad', 'value_bad'): cm[kk] = cm[kk] & ~ill
                 col.count('compared_with_definition')
+                if c['pool'] != 'exact':
+                    cm['undefined_bad'] = cm['undefined_bad'] & False        # NaN-for-undefined is stated for integer-valued inputs only
                 for kk in ('undefined_bad', 'defined_bad', 'value_bad'):
                     if cm[kk].any():
                         idx = tuple(int(t) for t in np.argwhere(cm[kk])[0])
